@@ -175,6 +175,18 @@ def v_rules(schema: Schema, rep: Report):
                 rep.note("V-R7 undecided: ',' is replaced but not in the try/except form")
             else:
                 ok = False
+    if h is not None:
+        # every decimal.Decimal(<text>) of the reader: the text itself, or the text with ',' turned into '.'; a
+        # comma that is dropped (or turned into anything else) changes the value (5,250 -> 5250)
+        for c in ast.walk(hfn):
+            if isinstance(c, ast.Call) and (text(c.func) in ("decimal.Decimal", "Decimal")) and len(c.args) == 1:
+                for r_ in ast.walk(hx.x(c.args[0])):
+                    if isinstance(r_, ast.Call) and isinstance(r_.func, ast.Attribute) and r_.func.attr == "replace" and len(r_.args) >= 2 and isinstance(r_.args[0], ast.Constant) and r_.args[0].value == ",":
+                        to = r_.args[1].value if isinstance(r_.args[1], ast.Constant) else None
+                        if to is None:
+                            rep.note("V-R7 undecided: ',' replaced by a non-constant")
+                        else:
+                            rep.check("V-R7", "Decimal.convert[str]:comma-is-the-separator", to == ".", f"a ',' in the text is replaced by {to!r} before conversion: '5,250' is read as {'5250' if to == '' else '?'} instead of 5.250" if to != "." else "", tloc(p, c))
     if ok is not None:
         rep.check("V-R7", "Decimal.convert[str]:both-separators", ok, "',' as decimal separator is not accepted (or '.' no longer is)" if not ok else "", tloc(p, h.fn if h else d_.node))
 
@@ -235,3 +247,46 @@ def _chain(st) -> List[str]:
             if not (isinstance(par, ast.Attribute) and par.attr == "replace"):
                 walk(c)
     return [x for x in out if isinstance(x, str) and x.startswith("&")]
+
+
+def v_r8_token_tables(p: Project, rep: Report, modules_prefix=("ofxtools.models", "ofxtools.Types", "ofxtools.header", "ofxtools.scripts.ofxget")):
+    """no element of a table of tokens is an implicit concatenation of two string literals (a missing comma merges
+    two enumeration tokens into one bogus token and drops both real ones)"""
+    import io
+    import re as _re
+    import tokenize
+
+    rep.rule("V-R8", "token tables are what they look like: in every tuple / list / set display (and OneOf(...) argument list) made only of blank-free string literals, no element is an implicit concatenation of adjacent literals - a missing comma merges two tokens ('SARSEP' 'SIMPLE' -> 'SARSEPSIMPLE'), so neither real token is accepted any more")
+    tok_re = _re.compile(r"^[A-Za-z0-9_.\-/+]+$")
+    ntables = 0
+    for name, m in p.modules.items():
+        if not any(name == pre or name.startswith(pre + ".") for pre in modules_prefix):
+            continue
+        src = p.files.get(m.relpath)
+        if src is None:
+            continue
+        for node in ast.walk(m.tree):
+            elts = None
+            if isinstance(node, (ast.Tuple, ast.List, ast.Set)):
+                elts = node.elts
+            elif isinstance(node, ast.Call) and isinstance(node.func, ast.Name) and node.func.id == "OneOf":
+                elts = node.args
+            if not elts or len(elts) < 2:
+                continue
+            if not all(isinstance(e, ast.Constant) and isinstance(e.value, str) and tok_re.match(e.value) for e in elts):
+                continue
+            ntables += 1
+            for e in elts:
+                seg = ast.get_source_segment(src, e)
+                if seg is None or e.lineno == getattr(e, "end_lineno", e.lineno) and seg.count('"') + seg.count("'") <= 2:
+                    continue
+                try:
+                    parts = [t.string for t in tokenize.generate_tokens(io.StringIO(seg).readline) if t.type == tokenize.STRING]
+                except (tokenize.TokenError, IndentationError, SyntaxError):
+                    continue
+                if len(parts) > 1:
+                    rep.check("V-R8", f"{name}:{e.value}:implicit-concatenation", False, f"{' '.join(parts)} are adjacent literals without a comma: the table holds the single token {e.value!r} and neither of {[ast.literal_eval(x) for x in parts]}", f"{m.relpath}:{e.lineno}")
+    rep.unit("token_tables", ntables)
+    if not any(o.rule == "V-R8" and not o.ok for o in rep.obligations):
+        rep.check("V-R8", "token-tables:no-implicit-concatenation", True, f"{ntables} tables", "")
+    rep.floor("V-R8", ntables, 40 if len(modules_prefix) > 1 else 4, "token tables")
